@@ -18,8 +18,9 @@ namespace PorepyVerif.C09
 
 def absR (x : Rat) : Rat := if x < 0 then -x else x
 
-/-- `np.isclose(a, b, rtol, atol)` for finite numbers: `|a - b| ≤ atol + rtol * |b|`. -/
-def isclose (rtol atol a b : Rat) : Bool := decide (absR (a - b) ≤ atol + rtol * absR b)
+/-- `np.isclose(a, b, rtol, atol)` for finite numbers: `|a - b| ≤ atol + rtol * |b|  or  a == b`
+    (numpy or-s the comparison with `x == y`; this only matters for negative tolerances). -/
+def isclose (rtol atol a b : Rat) : Bool := decide (absR (a - b) ≤ atol + rtol * absR b) || decide (a = b)
 
 /-! ### parameters and constructor validation -/
 
@@ -241,14 +242,18 @@ def Fits (p : Params) : Prop := p.timeInit + p.dtInit ≤ p.schedule.getD 1 0
 
 /-- Premise of the property: parameters the constructor accepts, adaptive mode, the initial step fits
     the first scheduled interval; plus what the constructor does not check but the statement needs:
-    non-negative tolerances and a positive lower bound for the step (or positive factors). -/
+    sane tolerances (`rtol ≤ 1` or `atol ≥ 0`; in particular all non-negative tolerances, and all
+    `rtol ≤ 1` whatever `atol`) and a positive lower bound for the step (or positive factors). -/
 def Admissible (p : Params) : Prop :=
-  Valid p ∧ p.constantDt = false ∧ Fits p ∧ 0 ≤ p.rtol ∧ 0 ≤ p.atol ∧
+  Valid p ∧ p.constantDt = false ∧ Fits p ∧ (p.rtol ≤ 1 ∨ 0 ≤ p.atol) ∧
     (0 < p.dtMin ∨ (0 < p.underRelax ∧ 0 < p.recompFactor))
 
 instance (p : Params) : Decidable (Admissible p) := by unfold Admissible Fits; infer_instance
 
 /-- the scheduled time `y` is hit (within the manager's tolerance) by one of the times `acc` -/
 def HitBy (p : Params) (acc : List Rat) (y : Rat) : Prop := ∃ a ∈ acc, isclose p.rtol p.atol a y = true
+
+/-- all outcomes on the tape are converged steps -/
+def AllConverged (os : List Outcome) : Prop := ∀ o ∈ os, ∃ it, o = .converged it
 
 end PorepyVerif.C09
